@@ -122,6 +122,18 @@ func presetFor(c *Ctx, id string, i int) *HistOpts {
 			if id == "C12" && i%4 == 2 {
 				sc = append(sc, scenParamChange(int64(3+rng.Intn(4)), "lazyRewardBlocks")) // the unbonding period changes while stakes are unbonding
 			}
+			if i%8 == 6 {
+				// a genesis validator without an account goes offline for good
+				if o.Gen.NVal < 3 {
+					o.Gen.NVal = 3
+				}
+				if o.Params.MaxValidatorCnt < int64(o.Gen.NVal) {
+					o.Params.MaxValidatorCnt = int64(o.Gen.NVal)
+				}
+				o.Gen.UnfundedLast = true
+				o.Gen.NoProposer, o.Gen.OddPropose = 0, 0
+				sc = append(sc, scenOfflineUnfunded())
+			}
 			if i%4 == 0 {
 				o.Gen.NVal = 3
 				o.Params.MaxValidatorCnt = 6
